@@ -47,6 +47,12 @@ func directed() []rpcsim.Directed {
 		{Sc: &rpcsim.Scenario{Name: "cancel-not-sent-no-drop", Cfg: rpcsim.Config{MaxRetries: 2, Interval: 3}, Can: true, DropErr: true,
 			Calls: []rpcsim.Option{{Kind: "start", ID: 1, Seq: 1, Body: 7}}, Env: []rpcsim.Option{cancel}},
 			Script: []string{"start 1 1 7", "cancel 1", "sret 1 can", "run 1"}},
+		// the server answers the cancelled request while the drop round trip is in flight: the no-op
+		// callback installed by the cancel branch gets the error (nil buffer) / the result
+		{Sc: one("error-during-drop", 2, cancel, rpcsim.Option{Kind: "nerr", ID: 2, Target: 1, Val: 400}), Script: []string{
+			"start 1 1 7", "sret 1 ok", "cancel 1", "run 1", "run 1", "nerr 2 1 400", "nrun 2", "dret 1 ok"}},
+		{Sc: one("result-during-drop", 2, cancel, rpcsim.Option{Kind: "nres", ID: 0, Target: 1, Val: 100, Shape: rpcsim.ShapeResultGz}), Script: []string{
+			"start 1 1 7", "sret 1 ok", "cancel 1", "run 1", "run 1", "nres 0 1 100", "nrun 0", "dret 1 ok"}},
 		{Sc: one("cancel-and-result", 2, cancel, res0), Repeat: 20, Script: []string{
 			"start 1 1 7", "sret 1 ok", "nres 0 1 100", "nrun 0", "nrun 0", "nrun 0", "nwrite 0 ok", "cancel 1", "run 1", "run 1"}},
 		{Sc: one("cancel-and-fclose", 2, cancel, ack1, fclose), Repeat: 20, Script: []string{
